@@ -351,40 +351,46 @@ Section NFADiff.
   Hypothesis HA : valid_nfa A = true.
   Hypothesis HB : valid_nfa B = true.
 
-  Theorem nfa_diff_spec :
-    exists r, nfa_diff A B = Ok r /\
+  Theorem nfa_diff_sound r : nfa_diff A B = Ok r ->
       (r = None <-> L_nfa A =L L_nfa B) /\
       (forall w, r = Some w -> nfa_acc A w <> nfa_acc B w).
   Proof.
     unfold nfa_diff.
-    destruct (gdiff _ _ _ _ _ _ _ _ _ _ _ _) as [r|] eqn:E.
-    - exists r. split; [reflexivity|].
-      assert (Hsome : forall w, r = Some w -> nfa_acc A w <> nfa_acc B w).
-      { intros w ->. apply gdiff_some in E; [|apply eqb_list_ok, eqb_nat_ok|apply eqb_list_ok, eqb_nat_ok].
-        destruct E as [_ E]. exact E. }
-      split; [|exact Hsome]. split.
-      + intros ->. intro w.
-        destruct (over_or_foreign (set_union (n_syms A) (n_syms B)) w) as [Ho|[u [a [v [-> Ha]]]]].
-        * pose proof (gdiff_none _ _ _ _ (eqb_list_ok _ eqb_nat_ok) (eqb_list_ok _ eqb_nat_ok)
-                        _ _ _ _ _ _ _ _ E w Ho) as H.
-          cbv beta in H. fold (nfa_acc A w) in H. fold (nfa_acc B w) in H.
-          rewrite <- (nfa_acc_spec A HA), <- (nfa_acc_spec B HB). rewrite H. tauto.
-        * rewrite set_union_In in Ha. split; intro H; exfalso.
-          -- apply (nfa_foreign_rejects A HA u a v); [tauto|exact H].
-          -- apply (nfa_foreign_rejects B HB u a v); [tauto|exact H].
-      + intro HL. destruct r as [w|]; [|reflexivity]. exfalso.
-        apply (Hsome w eq_refl). apply bool_eq_iff.
-        rewrite (nfa_acc_spec A HA), (nfa_acc_spec B HB). apply HL.
-    - exfalso. revert E.
-      apply (gdiff_fuel _ _ _ _ (eqb_list_ok _ eqb_nat_ok) (eqb_list_ok _ eqb_nat_ok) _ _ _ _ _ _ _
-               (nuniverse A) (nuniverse B)).
-      + apply nuniverse_closed; exact HA.
-      + apply nuniverse_closed; exact HB.
-      + apply nuniverse_init; exact HA.
-      + apply nuniverse_init; exact HB.
-      + unfold nfa_diff_fuel.
-        pose proof (nuniverse_length A). pose proof (nuniverse_length B).
-        apply Nat.lt_succ_r. apply Nat.mul_le_mono; assumption.
+    destruct (gdiff _ _ _ _ _ _ _ _ _ _ _ _) as [r'|] eqn:E; [|discriminate].
+    intro H. inversion H; subst r'. clear H.
+    assert (Hsome : forall w, r = Some w -> nfa_acc A w <> nfa_acc B w).
+    { intros w ->. apply gdiff_some in E; [|apply eqb_list_ok, eqb_nat_ok|apply eqb_list_ok, eqb_nat_ok].
+      destruct E as [_ E]. exact E. }
+    split; [|exact Hsome]. split.
+    + intros ->. intro w.
+      destruct (over_or_foreign (set_union (n_syms A) (n_syms B)) w) as [Ho|[u [a [v [-> Ha]]]]].
+      * pose proof (gdiff_none _ _ _ _ (eqb_list_ok _ eqb_nat_ok) (eqb_list_ok _ eqb_nat_ok)
+                      _ _ _ _ _ _ _ _ E w Ho) as H.
+        cbv beta in H. fold (nfa_acc A w) in H. fold (nfa_acc B w) in H.
+        rewrite <- (nfa_acc_spec A HA), <- (nfa_acc_spec B HB). rewrite H. tauto.
+      * rewrite set_union_In in Ha. split; intro H; exfalso.
+        -- apply (nfa_foreign_rejects A HA u a v); [tauto|exact H].
+        -- apply (nfa_foreign_rejects B HB u a v); [tauto|exact H].
+    + intro HL. destruct r as [w|]; [|reflexivity]. exfalso.
+      apply (Hsome w eq_refl). apply bool_eq_iff.
+      rewrite (nfa_acc_spec A HA), (nfa_acc_spec B HB). apply HL.
+  Qed.
+
+  Theorem nfa_diff_total : length (n_states A) + length (n_states B) <= 14 ->
+    exists r, nfa_diff A B = Ok r.
+  Proof.
+    intro Hsz. unfold nfa_diff.
+    destruct (gdiff _ _ _ _ _ _ _ _ _ _ _ _) as [r|] eqn:E; [exists r; reflexivity|].
+    exfalso. revert E.
+    apply (gdiff_fuel _ _ _ _ (eqb_list_ok _ eqb_nat_ok) (eqb_list_ok _ eqb_nat_ok) _ _ _ _ _ _ _
+             (nuniverse A) (nuniverse B)).
+    + apply nuniverse_closed; exact HA.
+    + apply nuniverse_closed; exact HB.
+    + apply nuniverse_init; exact HA.
+    + apply nuniverse_init; exact HB.
+    + unfold nfa_diff_fuel. apply Nat.leb_le in Hsz. rewrite Hsz.
+      pose proof (nuniverse_length A). pose proof (nuniverse_length B).
+      apply Nat.lt_succ_r. apply Nat.mul_le_mono; assumption.
   Qed.
 End NFADiff.
 
@@ -394,38 +400,44 @@ Section NFADFADiff.
   Hypothesis HA : valid_nfa A = true.
   Hypothesis HB : valid_dfa B = true.
 
-  Theorem nfa_dfa_diff_spec :
-    exists r, nfa_dfa_diff A B = Ok r /\
+  Theorem nfa_dfa_diff_sound r : nfa_dfa_diff A B = Ok r ->
       (r = None <-> L_nfa A =L L_dfa B) /\
       (forall w, r = Some w -> nfa_acc A w <> dfa_acc B w).
   Proof.
     unfold nfa_dfa_diff.
-    destruct (gdiff _ _ _ _ _ _ _ _ _ _ _ _) as [r|] eqn:E.
-    - exists r. split; [reflexivity|].
-      assert (Hsome : forall w, r = Some w -> nfa_acc A w <> dfa_acc B w).
-      { intros w ->. apply gdiff_some in E; [|apply eqb_list_ok, eqb_nat_ok|apply eqb_opt_ok, eqb_nat_ok].
-        destruct E as [_ E]. cbv beta in E. rewrite fold_ostep in E. exact E. }
-      split; [|exact Hsome]. split.
-      + intros ->. intro w. unfold L_dfa.
-        destruct (over_or_foreign (set_union (n_syms A) (d_syms B)) w) as [Ho|[u [a [v [-> Ha]]]]].
-        * pose proof (gdiff_none _ _ _ _ (eqb_list_ok _ eqb_nat_ok) (eqb_opt_ok _ eqb_nat_ok)
-                        _ _ _ _ _ _ _ _ E w Ho) as H.
-          cbv beta in H. rewrite fold_ostep in H. fold (nfa_acc A w) in H.
-          rewrite <- (nfa_acc_spec A HA). unfold dfa_acc, dfa_acc_from. rewrite H. tauto.
-        * rewrite set_union_In in Ha.
-          rewrite (dfa_foreign_symbol_rejects B HB u a v); [|tauto]. split; intro H; [exfalso|discriminate].
-          apply (nfa_foreign_rejects A HA u a v); [tauto|exact H].
-      + intro HL. destruct r as [w|]; [|reflexivity]. exfalso.
-        apply (Hsome w eq_refl). apply bool_eq_iff.
-        rewrite (nfa_acc_spec A HA). apply HL.
-    - exfalso. revert E.
-      apply (gdiff_fuel _ _ _ _ (eqb_list_ok _ eqb_nat_ok) (eqb_opt_ok _ eqb_nat_ok) _ _ _ _ _ _ _
-               (nuniverse A) (ostates B)).
-      + apply nuniverse_closed; exact HA.
-      + apply ostates_closed; exact HB.
-      + apply nuniverse_init; exact HA.
-      + apply ostates_init; exact HB.
-      + pose proof (nuniverse_length A). unfold ostates. simpl. rewrite map_length.
-        apply Nat.lt_succ_r. apply Nat.mul_le_mono; [assumption|lia].
+    destruct (gdiff _ _ _ _ _ _ _ _ _ _ _ _) as [r'|] eqn:E; [|discriminate].
+    intro H. inversion H; subst r'. clear H.
+    assert (Hsome : forall w, r = Some w -> nfa_acc A w <> dfa_acc B w).
+    { intros w ->. apply gdiff_some in E; [|apply eqb_list_ok, eqb_nat_ok|apply eqb_opt_ok, eqb_nat_ok].
+      destruct E as [_ E]. cbv beta in E. rewrite fold_ostep in E. exact E. }
+    split; [|exact Hsome]. split.
+    + intros ->. intro w. unfold L_dfa.
+      destruct (over_or_foreign (set_union (n_syms A) (d_syms B)) w) as [Ho|[u [a [v [-> Ha]]]]].
+      * pose proof (gdiff_none _ _ _ _ (eqb_list_ok _ eqb_nat_ok) (eqb_opt_ok _ eqb_nat_ok)
+                      _ _ _ _ _ _ _ _ E w Ho) as H.
+        cbv beta in H. rewrite fold_ostep in H. fold (nfa_acc A w) in H.
+        rewrite <- (nfa_acc_spec A HA). unfold dfa_acc, dfa_acc_from. rewrite H. tauto.
+      * rewrite set_union_In in Ha.
+        rewrite (dfa_foreign_symbol_rejects B HB u a v); [|tauto]. split; intro H; [exfalso|discriminate].
+        apply (nfa_foreign_rejects A HA u a v); [tauto|exact H].
+    + intro HL. destruct r as [w|]; [|reflexivity]. exfalso.
+      apply (Hsome w eq_refl). apply bool_eq_iff.
+      rewrite (nfa_acc_spec A HA). apply HL.
+  Qed.
+
+  Theorem nfa_dfa_diff_total : length (n_states A) <= 14 -> exists r, nfa_dfa_diff A B = Ok r.
+  Proof.
+    intro Hsz. unfold nfa_dfa_diff.
+    destruct (gdiff _ _ _ _ _ _ _ _ _ _ _ _) as [r|] eqn:E; [exists r; reflexivity|].
+    exfalso. revert E.
+    apply (gdiff_fuel _ _ _ _ (eqb_list_ok _ eqb_nat_ok) (eqb_opt_ok _ eqb_nat_ok) _ _ _ _ _ _ _
+             (nuniverse A) (ostates B)).
+    + apply nuniverse_closed; exact HA.
+    + apply ostates_closed; exact HB.
+    + apply nuniverse_init; exact HA.
+    + apply ostates_init; exact HB.
+    + apply Nat.leb_le in Hsz. rewrite Hsz.
+      pose proof (nuniverse_length A). unfold ostates. simpl. rewrite map_length.
+      apply Nat.lt_succ_r. apply Nat.mul_le_mono; [assumption|lia].
   Qed.
 End NFADFADiff.
